@@ -45,6 +45,11 @@ def main():
     a = ap.parse_args()
     props = a.props.split(",")
     wt = f"/tmp/st-{a.seed_id}"
+    global SEED_BUILD
+    SEED_BUILD = f"/var/tmp/whverif-build-seed-{a.seed_id}"    # own build root: seed runs can go in parallel
+    shutil.rmtree(SEED_BUILD, ignore_errors=True)
+    if os.path.isdir("/var/tmp/whverif-build/tree"):
+        sh(f"cp -a /var/tmp/whverif-build {SEED_BUILD}")
     sh(f"git -C /repo worktree remove --force {wt}")
     shutil.rmtree(wt, ignore_errors=True)
     rc, out = sh(f"git -C /repo worktree add -q --detach {wt} HEAD")
@@ -123,6 +128,7 @@ def main():
     finally:
         sh(f"git -C /repo worktree remove --force {wt}")
         shutil.rmtree(wt, ignore_errors=True)
+        shutil.rmtree(SEED_BUILD, ignore_errors=True)
 
 
 if __name__ == "__main__":
